@@ -116,6 +116,75 @@ theorem resumed_session_identity (cap : Nat) (fabrics : List Fabric) (cache : Ca
       exact insert_findByPeer cap cache _ (by omega)
   · cases h2
 
+/-- **which fabric a resumed session is bound to**: the LOCAL fabric (index and own node id) of a resumed
+responder session is the fabric with the index stored in the record whose secret validated the MIC — the
+fabric the record was made on — and the peer node id / CATs are that record's.  The destination id of the
+Sigma1 plays no part in it: whatever (valid or not) destination id, initiator session id or ephemeral key the
+Sigma1 carries next to the record's resumption id and MIC, the resumed session is the same.  (So a record made
+on fabric A can never yield a session on fabric B, in particular not by presenting B's destination id.) -/
+theorem resumed_session_bound_to_record_fabric (fabrics : List Fabric) (cache : Cache) (m1 m2 : Msg)
+    (nr sid : Term) (cx : RespResumeCtx) (s : Session) (r' : ResRec)
+    (h1 : respResume fabrics cache m1 nr sid = some cx)
+    (h2 : respResumeFinish cx m2 = some (s, r')) :
+    ∃ iRnd iSid dest iEph rid mic1 rec f,
+      m1 = .sigma1 iRnd iSid dest iEph (some (rid, mic1)) ∧
+      cache.findByRid rid = some rec ∧
+      mic1 = Term.mic (resumeKey rec.secret iRnd rec.rid infoS1RK) nonceR1 ∧
+      -- local side: the fabric with the record's index
+      fabrics.find? (fun g => g.idx == rec.fabIdx) = some f ∧
+      s.fabIdx = rec.fabIdx ∧ s.fabIdx = f.idx ∧ s.localNode = f.nodeId ∧
+      -- peer side: the record's identity
+      s.peerNode = rec.peerNode ∧ s.cats = rec.cats ∧ r'.fabIdx = rec.fabIdx ∧
+      -- independent of the destination id (and of the other unauthenticated fields)
+      ∀ dest' iEph', ∃ cx', respResume fabrics cache (.sigma1 iRnd iSid dest' iEph' (some (rid, mic1))) nr sid = some cx' ∧
+        cx'.session = cx.session ∧ cx'.record = cx.record := by
+  unfold respResume at h1
+  split at h1
+  · rename_i iRnd iSid dest iEph rid mic1
+    split at h1
+    · cases h1
+    · rename_i rec hrec
+      split at h1
+      · cases h1
+      · rename_i hmic
+        have hmic' := hmic
+        simp only [ne_eq, Decidable.not_not] at hmic'
+        split at h1
+        · cases h1
+        · rename_i f hf
+          simp only [Option.some.injEq] at h1
+          subst h1
+          unfold respResumeFinish at h2
+          split at h2
+          · simp only [Option.some.injEq, Prod.mk.injEq] at h2
+            obtain ⟨hs, hr⟩ := h2
+            subst hs; subst hr
+            have hidx : f.idx = rec.fabIdx := by
+              have := List.find?_some hf; simpa using this
+            refine ⟨iRnd, iSid, dest, iEph, rid, mic1, rec, f, rfl, hrec, hmic', hf, rfl, hidx.symm, rfl, rfl, rfl,
+              rfl, ?_⟩
+            intro dest' iEph'
+            refine ⟨_, ?_, rfl, rfl⟩
+            unfold respResume
+            simp only [hrec, hf]
+            simp [hmic']
+          · cases h2
+  · cases h1
+
+/-- the two-fabric attack in the model: the responder is on fabrics 1 and 2, holds a record made on fabric 1
+(peer node 5, CAT 65537); a Sigma1 with fabric 2's destination id and that record's id and MIC resumes a
+session on fabric 1 — never on fabric 2 -/
+example :
+    let fA : Fabric := devFabric
+    let fB : Fabric := { devFabric with idx := 3, fabricId := 9, nodeId := 777, ipk := .atom 78 }
+    let recA : ResRec := { fabIdx := 2, peerNode := 5, cats := [65537], rid := .atom 700, secret := .shared 3 4 }
+    let s1 : Msg := .sigma1 (.atom 501) (.atom 601) (destId fB.ipk (.atom 501) fB.root.pubKey fB.fabricId fB.nodeId)
+      (.epk 11) (some (.atom 700, Term.mic (resumeKey (.shared 3 4) (.atom 501) (.atom 700) infoS1RK) nonceR1))
+    ((respResume [fA, fB] [recA] s1 (.atom 702) (.atom 602)).map
+        fun cx => (cx.session.fabIdx, cx.session.localNode, cx.session.peerNode, cx.session.cats)) =
+      some (2, 200, 5, [65537]) := by
+  decide
+
 /-! ### purging on fabric removal -/
 
 /-- **a record of a removed fabric cannot be resumed**: after `remove_for_fabric fab` (what the
